@@ -1,6 +1,8 @@
 import CotengraVerif.Lemmas.SoundRun
 import CotengraVerif.Lemmas.SortOK
+import CotengraVerif.Lemmas.ChildrenFirst
 import CotengraVerif.Model.Recipes
+import Mathlib.Algebra.Ring.Int.Defs
 
 /-!
 # C01 — contracting with any tree gives the einsum value, in the declared axis order
@@ -30,6 +32,10 @@ import CotengraVerif.Model.Recipes
 * `model_extract_admissible_sorted` – in particular for the table that the model of
   `sort_contraction_indices` leaves behind, for every processing order (`priority`) and both
   flags (`sortInds_ok`).
+* `childrenFirst_of_childrenEarlier` – `ChildrenFirst` (an inductive schedule) covers every
+  traversal that is children-first in the plain positional sense (`ChildrenEarlier`: lists the
+  internal nodes, every child that is a node occurs earlier); `model_extract_admissible_positional`
+  restates the extraction theorem with that hypothesis.
 * `model_contract_correct` – soundness and extraction combined: C01 for the model.
 * `run_order_irrelevant` – any two children-first orders (and recipe choices) yield the same
   array (same shape, same entry at every position).
@@ -186,6 +192,15 @@ theorem model_extract_admissible (n : Net) (rm : List Ix) (t : BT) (order : List
     Admissible n rm t (extract n rm order preferEinsum) = true :=
   extractWith_admissible n rm t _ order preferEinsum hN hc G (inds_ok n rm t hN hc) ho
 
+/-- `model_extract_admissible` for traversals given positionally: `order` lists exactly the
+    internal nodes and every child that is itself a node occurs earlier in the list. -/
+theorem model_extract_admissible_positional (n : Net) (rm : List Ix) (t : BT) (I : BT → List Ix)
+    (order : List BT) (preferEinsum : Bool) (hN : 2 ≤ n.inputs.length) (hc : Complete n t)
+    (G : Guards n) (hI : IndsOK n rm t I) (ho : ChildrenEarlier t order) :
+    Admissible n rm t (extractWith n rm I order preferEinsum) = true :=
+  extractWith_admissible n rm t I order preferEinsum hN hc G hI
+    (childrenFirst_of_childrenEarlier t order (complete_nodup n t hc) ho)
+
 /-- **`model_extract_admissible_sorted`.**  The same after the model of
     `sort_contraction_indices(priority, make_output_contig, make_contracted_contig)`, for every
     processing order `proc` over nodes of the tree. -/
@@ -287,5 +302,28 @@ example : Admissible exNet [] exTree
         match s.recipe with
         | .einsum a b o => if s.parent.length == 2 then { s with recipe := .einsum a b (o.take 1) } else s
         | _ => s } = false := by decide
+
+/-! ### a concrete run over `Int`: hypotheses of `admissible_sound` are met, and the kernel
+    evaluates both sides of its conclusion to the same integer -/
+
+def exArr (shape : List Nat) (seed : Int) : Arr Int :=
+  { shape := shape,
+    val := fun idx => (idx.foldl (fun acc v => acc * 3 + (v : Int) + 1) seed) % 5 - 2 }
+
+def exArrays : List (Arr Int) :=
+  [exArr [2, 3] 1, exArr [3, 2, 2] 2, exArr [2, 2, 1, 2] 3, exArr [2, 3] 4]
+
+def valAt (r : Except String (Arr Int)) (idx : List Nat) : Option Int :=
+  match r with
+  | .ok a => some (a.val idx)
+  | .error _ => none
+
+example : WellShaped exNet [] exArrays := ⟨by decide, by decide⟩
+set_option maxRecDepth 100000 in
+example : valAt (run (extract exNet [] exTree.internal false) exArrays) [1, 0] = some 24 ∧
+    exNet.einsumSpec [] (operands exArrays) (assoc ([4, 0].zip [1, 0])) = 24 := by decide
+set_option maxRecDepth 100000 in
+example : valAt (run (extract exNet [] exOrder₂ true) exArrays) [0, 1] =
+    some (exNet.einsumSpec [] (operands exArrays) (assoc ([4, 0].zip [0, 1]))) := by decide
 
 end Cotengra.C01
